@@ -132,13 +132,26 @@ ExecMark ==
 
 (* ------------------------------------------------------------------ simple statements and parts  *)
 ExecSimple ==
-  /\ Running /\ Stmt.k \in {"text", "py", "lit", "val", "ret", "brk", "cont"}
+  /\ Running /\ Stmt.k \in {"text", "py", "lit", "val", "ret", "brk", "cont", "mkit", "drain", "itobs"}
   /\ LET s == Stmt IN
      Step(CASE s.k = "text" -> Lit(Adv(m), <<s.t>>)                       \* __M_writer('...')
             [] s.k = "py"   -> Adv([m EXCEPT !.ctl[ActIdxOf(m)].vars = (s.v :> <<s.t>>) @@ @])
             [] s.k = "lit"  -> AccLit(Adv(m), <<s.t>>)
             [] s.k = "val"  -> IF s.v \in DOMAIN EnvOf(m) THEN AccLit(Adv(m), EnvOf(m)[s.v])
                                ELSE Raise(Adv(m), "unbound")                \* UnboundLocalError
+            \* a shared iterator (generator function result, generator expression, iterator object with a close()
+            \* method): a variable of the function holding the items not yet delivered.  Python's `for` only calls
+            \* next(): leaving a loop early leaves the remaining items in place, nothing closes the iterator, and the
+            \* `finally:` of a generator function runs only when it is exhausted.
+            [] s.k = "mkit" -> Adv([m EXCEPT !.ctl[ActIdxOf(m)].vars = (s.v :> [toks |-> s.toks, pos |-> 0, fin |-> FALSE]) @@ @])
+            [] s.k = "drain" ->      \* ''.join(g): what remains is written, the iterator is exhausted
+                   IF s.v \notin DOMAIN EnvOf(m) THEN Raise(Adv(m), "unbound")
+                   ELSE LET it == EnvOf(m)[s.v] IN
+                        Lit(Adv([m EXCEPT !.ctl[ActIdxOf(m)].vars[s.v] = [it EXCEPT !.pos = Len(it.toks), !.fin = TRUE]]),
+                            SubSeq(it.toks, it.pos + 1, Len(it.toks)))
+            [] s.k = "itobs" ->      \* side effects: the generator's finally has run / close() has been called
+                   IF s.v \notin DOMAIN EnvOf(m) THEN Raise(Adv(m), "unbound")
+                   ELSE Lit(Adv(m), <<IF s.kind = "genfn" /\ EnvOf(m)[s.v].fin THEN "fin" ELSE "untouched">>)
             [] s.k = "ret"  -> [Adv(m) EXCEPT !.mode = "ret"]
             [] s.k = "brk"  -> [Adv(m) EXCEPT !.mode = "brk"]
             [] s.k = "cont" -> [Adv(m) EXCEPT !.mode = "cont"])
@@ -271,7 +284,10 @@ IfFrom(x, s, i) ==
 EnterFor(x, s) ==      \* the iterable has been evaluated: push the loop context, then iterate (or the else clause)
   LET par == TopOf(x)
       x1 == [x EXCEPT !.ls[par.lix] = Append(@, [i |-> 0, n |-> IF s.sized THEN s.n ELSE 0 - 1])]
-  IN IF s.n > 0 THEN PushF(x1, Frame("for", s.a, par) @@ [n |-> s.n, i |-> 0, els |-> s.els])
+  IN IF s.src # ""        \* a shared iterator: the frame starts "at its end", where next() is called
+     THEN IF s.src \notin DOMAIN EnvOf(x) THEN Raise(x, "unbound")
+          ELSE PushF(x1, [Frame("for", s.a, par) EXCEPT !.pc = Len(s.a) + 1] @@ [n |-> 0, i |-> 0, els |-> s.els, src |-> s.src, first |-> TRUE])
+     ELSE IF s.n > 0 THEN PushF(x1, Frame("for", s.a, par) @@ [n |-> s.n, i |-> 0, els |-> s.els, src |-> "", first |-> FALSE])
      ELSE PushF(x1, Frame("fels", s.els, par))
 EnterWith(x, s) == PushF(Lit(x, <<s.t1>>), Frame("with", s.a, TopOf(x)) @@ [t2 |-> s.t2])
 WhileTest(x) ==        \* the condition has been evaluated; the while frame is on top
@@ -302,16 +318,21 @@ ExecWith ==
 (* ------------------------------------------------------------------ a frame runs off its end     *)
 PopLoop(x, f) == [x EXCEPT !.ls[f.lix] = PopS(@)]
 BumpLoop(x, f) == [x EXCEPT !.ls[f.lix][Len(x.ls[f.lix])].i = @ + 1]
-NextIter(x, f) ==   \* the loop frame re-enters its body, or is exhausted (for: else clause with `loop` still pushed)
-  IF f.i + 1 < f.n
-  THEN IF f.kind = "for"
+ToElse(x1, f) ==    \* exhausted: the else clause runs with `loop` still pushed
+  [x1 EXCEPT !.ctl[Len(x1.ctl)] = [kind |-> "fels", code |-> f.els, pc |-> 1, cal |-> f.cal, lix |-> f.lix,
+                                   sb |-> f.sb, sc |-> f.sc, sl |-> x1.ls, snc |-> f.snc]]
+NextIter(x, f) ==   \* the for frame re-enters its body, or is exhausted
+  IF f.src # ""
+  THEN LET ai == ActIdxOf(x)
+           it == x.ctl[ai].vars[f.src]
+           x0 == IF f.first THEN x ELSE BumpLoop(x, f)      \* LoopContext.index advances when the generator is resumed
+       IN IF it.pos < Len(it.toks)
+          THEN [x0 EXCEPT !.ctl[ai].vars[f.src].pos = @ + 1,
+                          !.ctl[Len(x.ctl)] = [f EXCEPT !.pc = 1, !.first = FALSE, !.sl = x0.ls]]
+          ELSE ToElse([x0 EXCEPT !.ctl[ai].vars[f.src].fin = TRUE], f)
+  ELSE IF f.i + 1 < f.n
        THEN LET x1 == BumpLoop(x, f) IN [x1 EXCEPT !.ctl[Len(x.ctl)] = [f EXCEPT !.pc = 1, !.i = @ + 1, !.sl = x1.ls]]
-       ELSE [x EXCEPT !.ctl[Len(x.ctl)] = [f EXCEPT !.pc = 1, !.i = @ + 1]]
-  ELSE IF f.kind = "for"
-       THEN LET x1 == BumpLoop(x, f) IN
-            [x1 EXCEPT !.ctl[Len(x.ctl)] = [kind |-> "fels", code |-> f.els, pc |-> 1, cal |-> f.cal, lix |-> f.lix,
-                                            sb |-> f.sb, sc |-> f.sc, sl |-> x1.ls, snc |-> f.snc]]
-       ELSE PopCtl(x)
+       ELSE ToElse(BumpLoop(x, f), f)
 ActExit(x, f) ==    \* top / inc : finally: _pop_frame
   [x EXCEPT !.nc = LastS(x.callers), !.callers = PopS(@), !.ls = PopS(@), !.ctl = PopS(@)]
 ExitFrame ==
